@@ -31,6 +31,7 @@ import (
 	netutil "github.com/samaritan-proxy/samaritan/proc/internal/net"
 	"github.com/samaritan-proxy/samaritan/proc/internal/syscall"
 	"github.com/samaritan-proxy/samaritan/proc/redis/hotkey"
+	"github.com/samaritan-proxy/samaritan/utils/verifhook"
 )
 
 const (
@@ -591,21 +592,29 @@ func (c *client) Start() {
 	}()
 
 	c.loopRead()
+	verifhook.At("client.Start.readDone", c)
 	c.conn.Close()
 	c.quitOnce.Do(func() {
 		close(c.quit)
 	})
+	verifhook.At("client.Start.quitClosed", c)
 	<-writeDone
+	verifhook.At("client.Start.writeDone", c)
 	c.drainRequests()
+	verifhook.At("client.Start.drained", c)
 	close(c.done)
 }
 
 func (c *client) Send(req *simpleRequest) {
+	verifhook.At2("client.Send", c, req)
 	select {
 	case <-c.quit:
+		verifhook.At2("client.Send.quit", c, req)
 		req.SetResponse(newError(backendExited))
 	default:
+		verifhook.At2("client.Send.checked", c, req)
 		c.pendingReqs <- req
+		verifhook.At2("client.Send.enqueued", c, req)
 	}
 }
 
@@ -615,15 +624,19 @@ func (c *client) loopWrite() {
 		err error
 	)
 	for {
+		verifhook.At("client.loopWrite.select", c)
 		select {
 		case <-c.quit:
+			verifhook.At("client.loopWrite.quit", c)
 			return
 		case req = <-c.pendingReqs:
 		}
+		verifhook.At2("client.loopWrite.got", c, req)
 
 		switch c.filter.Do(req) {
 		case Continue:
 		case Stop:
+			verifhook.At2("client.loopWrite.filtered", c, req)
 			continue
 		}
 
@@ -638,14 +651,18 @@ func (c *client) loopWrite() {
 			}
 		}
 
+		verifhook.At2("client.loopWrite.handoff", c, req)
 		select {
 		case <-c.quit:
+			verifhook.At2("client.loopWrite.handoffQuit", c, req)
 			return
 		case c.processingReqs <- req:
 		}
+		verifhook.At2("client.loopWrite.handed", c, req)
 	}
 
 FAIL:
+	verifhook.At2("client.loopWrite.fail", c, req)
 	// req and error must not be nil
 	req.SetResponse(newError(err.Error()))
 	c.logger.Warnf("loop write exit: %v", err)
@@ -658,11 +675,15 @@ func (c *client) loopRead() {
 			if err != io.EOF && !strings.Contains(err.Error(), "use of closed network connection") {
 				c.logger.Warnf("loop read exit: %v", err)
 			}
+			verifhook.At("client.loopRead.err", c)
 			return
 		}
 
+		verifhook.At("client.loopRead.decoded", c)
 		req := <-c.processingReqs
+		verifhook.At2("client.loopRead.paired", c, req)
 		c.handleResp(req, resp)
+		verifhook.At2("client.loopRead.handled", c, req)
 	}
 }
 
@@ -699,8 +720,10 @@ func (c *client) drainRequests() {
 	for {
 		select {
 		case req := <-c.pendingReqs:
+			verifhook.At2("client.drain.pending", c, req)
 			req.SetResponse(newError(backendExited))
 		case req := <-c.processingReqs:
+			verifhook.At2("client.drain.processing", c, req)
 			req.SetResponse(newError(backendExited))
 		default:
 			return
@@ -709,10 +732,13 @@ func (c *client) drainRequests() {
 }
 
 func (c *client) Stop() {
+	verifhook.At("client.Stop", c)
 	c.quitOnce.Do(func() {
 		close(c.quit)
 	})
+	verifhook.At("client.Stop.quitClosed", c)
 	c.conn.Close()
 	<-c.done
+	verifhook.At("client.Stop.done", c)
 	c.filter.Reset()
 }
